@@ -366,6 +366,51 @@ SEEDS = {
         detected_by={"C23": "per_trajectory_matrix_samples2 (added): each repetition carries its own trajectory's interaction matrix", "C34": "reps_expansion_samples2"},
         strengthened="C23 MISSED it at first (C34 caught it): C23 only ever built one trajectory. C34's multi-trajectory case is now part of C23",
     ),
+    "C14c": dict(
+        property="C14",
+        change="emu-mps _is_evaluation_time no longer passes the 1e-10 tolerance on the config-default branch: pulser's 1e-6 default applies",
+        needs="emu-mps, an observable on default times, a requested time within (1e-9, 1e-6] of a dt-grid point",
+        detected_by={"C14": "mps_steps2_D20: emu-mps: B(default times) stored exactly once per requested time and at no other time"},
+    ),
+    "C15c": dict(
+        property="C15",
+        change="MPS.sample's batching loop rewritten with `num_shots % 32` as the last batch size: a multiple of 32 shots loses its last batch (32 shots -> empty result)",
+        needs="MPS sampling with num_shots a multiple of 32",
+        detected_by={"C15": "mps_sample_n2_d2_D2_many: one sampler call per site and batch / each call gets a (batch, dim) weight matrix (32 shots added to the quick tier)"},
+        strengthened="MISSED at first by the quick tier (33 and 40 shots only; 64 was in the thorough tier): 32 shots - exactly one full batch - added",
+    ),
+    "C18c": dict(
+        property="C18",
+        change="set_jump_threshold no longer resets norm_gap_before_jump (moved into init): after a jump the next root search starts from a stale gap",
+        needs="two jumps inside one time step",
+        detected_by={"C18": "step_search_inner: new threshold in (0,1), gap = 1 - threshold; Inv holds again (after the jump)"},
+    ),
+    "C22c": dict(
+        property="C22",
+        change="the amplitude clamp only covers rows whose step STARTS at or after the last sample, not those whose midpoint lies beyond it",
+        needs="a step straddling the last sample (dt not dividing 1 ns) and an amplitude ramping to zero",
+        detected_by={"C22": "extract_T3_K2_atoms1: omega[k,0] >= 0 (amplitude never negative)"},
+    ),
+    "C24c": dict(
+        property="C24",
+        change="_get_all_lindblad_noise_operators no longer forwards interact_type: XY effective-noise operators get the ising level flip",
+        needs="XY interaction with an eff_noise operator that is not symmetric under swapping the two levels, collected through the adapter",
+        detected_by={"C24": "all_channels_XY_d2: dissipator of the emulator's jump operators = Pulser's, in the emulator's level order"},
+    ),
+    "C25c": dict(
+        property="C25",
+        change="emu-sv's bad-atom wrapper masks the interaction matrix once, at t=0, instead of at every query time",
+        needs="emu-sv, a bad atom, and an SLM mask ending before the sequence does",
+        detected_by={"C25": "sv_bad_atoms_n2_steps2_slm (added): emu-sv step 1: badly prepared atoms are not driven, detuned or interacting"},
+        strengthened="MISSED at first: the emu-sv bad-atom cases used a time-independent interaction matrix. Added a two-step case with a symbolic SLM end time and symbolic masked/full matrices",
+    ),
+    "C26c": dict(
+        property="C26",
+        change="MPSBackendImpl.__setstate__ overwrites results.atom_order with the register order, so permute_results un-permutes an order that was never permuted",
+        needs="reordering on with a non-identity ordering; every snapshot position",
+        detected_by={"C26": "pickled_fields_roundtrip: restored vs saved results: same atom order / restored results keep the solver's site order (reordering fork added)"},
+        strengthened="MISSED at first: __getstate__/__setstate__ were only exercised with reordering off (site order = register order). The round-trip case now forks over reordering with a stubbed ordering (the swap)",
+    ),
     "C22b": dict(
         property="C22",
         change="_limit_endpoint tests `d_end * s_l < 0` instead of comparing signs: a flat end secant no longer zeroes the end slope (the original defect D1 in another guise, both ends)",
